@@ -292,6 +292,53 @@ def brk_mutate_chop_forgets_changed():
     mu.TestCaseMutation.mutate = mutate
 
 
+def brk_suite_splice_marks_changed_only_when_tail_added():
+    brk_PROPOSED_FIXES()
+    import pynguin.ga.operators.crossover as co
+
+    def splice(parent, other, position1, position2):
+        tail = [t.clone() for t in other.test_case_chromosomes[position2:]]
+        parent.test_case_chromosomes = parent.test_case_chromosomes[:position1] + tail
+        if tail:  # seeded: a splice that only shrinks the suite is not reported
+            parent.changed = True
+
+    co.splice_test_suite_chromosomes = splice
+
+
+def brk_testcase_splice_marks_changed_only_when_longer():
+    brk_PROPOSED_FIXES()
+    import pynguin.configuration as config
+    import pynguin.ga.operators.crossover as co
+
+    def splice(parent, other, position1, position2):
+        off = parent.test_case.clone()
+        if off.size() > position1:
+            off.remove_statements_batch(set(range(position1, off.size())))
+        kept = off.size()
+        off.append_test_case_from(other.test_case, position2)
+        if off.size() < config.configuration.search_algorithm.chromosome_length:
+            parent.test_case = off
+            if off.size() > kept:  # seeded
+                parent.changed = True
+
+    co.splice_test_case_chromosomes = splice
+
+
+def brk_delete_last_test_forgets_changed():
+    brk_PROPOSED_FIXES()
+    import pynguin.ga.testsuitechromosome as tsc
+
+    def delete_test_case_chromosome(self, test):
+        try:
+            self.test_case_chromosomes.remove(test)
+            if self.test_case_chromosomes:  # seeded: deleting the only test is not reported
+                self.changed = True
+        except ValueError:
+            pass
+
+    tsc.TestSuiteChromosome.delete_test_case_chromosome = delete_test_case_chromosome
+
+
 BREAKS = {k[4:]: v for k, v in globals().items() if k.startswith("brk_")}
 
 
